@@ -97,10 +97,92 @@ def fake_open(path, mode='r'):
     return W.open(path, mode)
 
 
+class SymBuf:
+    """model of a mutable byte buffer (bytearray) of symbolic length: its
+    current contents are a SymBytes value; readinto() of the file stub
+    replaces a prefix and keeps the (stale) tail, exactly as the real one"""
+    ZERO = None
+
+    def __init__(self, content):
+        self.content = content
+
+    def sym_len(self):
+        return self.content.sym_len()
+
+    def snapshot(self):
+        return self.content
+
+    def __getitem__(self, k):
+        if not isinstance(k, slice):
+            return self.content[k]
+        return SymView(self, k)
+
+    def __setitem__(self, k, v):
+        raise core.Unsupported('item assignment on a symbolic bytearray')
+
+    def __getattr__(self, name):
+        raise core.Unsupported('symbolic bytearray has no %s()' % name)
+
+
+class SymView:
+    """buf[a:b] / memoryview(buf)[a:b]: resolved when it is consumed"""
+    def __init__(self, buf, k=None):
+        self.buf, self.k = buf, k
+
+    def snapshot(self):
+        c = self.buf.snapshot()
+        return c if self.k is None else c[self.k]
+
+    def sym_len(self):
+        return self.snapshot().sym_len()
+
+    def __getitem__(self, k):
+        if not isinstance(k, slice):
+            return self.snapshot()[k]
+        return SymView(self, k)
+
+    def __enter__(self):
+        return self
+
+    def __exit__(self, *a):
+        return False
+
+    def release(self):
+        return None
+
+    def __getattr__(self, name):
+        raise core.Unsupported('symbolic memoryview has no %s()' % name)
+
+
+def snapshot(b):
+    return b.snapshot() if isinstance(b, (SymBuf, SymView)) else (
+        bytes(b) if isinstance(b, (bytearray, memoryview)) else b)
+
+
+def fake_bytearray(*a):
+    if len(a) == 1 and isinstance(a[0], (core.SymInt, int)):
+        n = a[0]
+        if n < 0:
+            raise core.deliberate(ValueError('negative count'))
+        from symx.sbytes import Stream, SymBytes
+        return SymBuf(SymBytes.of(Stream('zero', default=0), 0, n))
+    if a and isinstance(a[0], (SymBuf, SymView)):
+        return SymBuf(a[0].snapshot())
+    return bytearray(*a)
+
+
+def fake_memoryview(x):
+    if isinstance(x, (SymBuf, SymView)):
+        return SymView(x)
+    return memoryview(x)
+
+
 def load_sym():
     ld = env.Loader(env={'os': FakeOs(), 'tempfile': FakeTempfile,
                          'hashlib': FakeHashlib, 'time': FakeTime},
-                    builtins_extra={'open': fake_open})
+                    builtins_extra={'open': fake_open,
+                                    'bytearray': fake_bytearray,
+                                    'memoryview': fake_memoryview})
     m = Mods()
     m.fu = ld.load(FU)
     m.sha = ld.sha
@@ -282,7 +364,7 @@ def scen_checksum(ctx, M):
 
     class Hasher:
         def update(self, b):
-            updates.append(b)
+            updates.append(snapshot(b))
 
         def hexdigest(self):
             return 'digest-of-%d-updates' % len(updates)
@@ -314,6 +396,26 @@ def scen_checksum(ctx, M):
                 self.pos = b
                 return S.slice(a, b)
             return S.slice(a, a)
+
+        def readinto(self, buf):
+            # fills a prefix of the buffer, leaves its tail as it was
+            a = self.pos
+            if isinstance(buf, (SymBuf, SymView)):
+                old = buf.snapshot()
+                if isinstance(buf, SymView):
+                    raise core.Unsupported('readinto a view')
+                n = h.vmin(old.sym_len(), N - a)
+                reads.append(n)
+                if ctx.truth(n > 0):
+                    self.pos = a + n
+                    buf.content = S.slice(a, a + n) + old[n:]
+                    return n
+                return 0
+            data = S.slice(a, min(a + len(buf), N))
+            reads.append(len(buf))
+            buf[:len(data)] = data
+            self.pos = a + len(data)
+            return len(data)
 
         def __enter__(self):
             return self
